@@ -3,8 +3,8 @@
 
     Go function                                          model
     --------------------------------------------------   -------------------------------
-    executor/writer.go:67  Writer.WriteRecords           write_records / wr_loop  (prevYear is never
-                                                          updated after the first row: writer.go:104-131)
+    executor/writer.go:67  Writer.WriteRecords           write_records / wr_loop  (as of /repo commit 49eddda:
+                                                          prevYear follows every new command)
     executor/writer.go:44  formatRecord (fixed)           the payload = row bytes after the 8-byte Epoch
     executor/wal.go:190    WriteCommand                   cmd
     executor/wal.go:380    writeFixedBuffer /
@@ -45,8 +45,9 @@ Definition cmd_of (tfs recLen : Z) (r : row) : cmd :=
 
 Definition set_data (c : cmd) (d : list byte) : cmd := mkcmd (c_year c) (c_off c) (c_idx c) d.
 
-(** WriteRecords, rows 1.. : [y0] = prevYear (year of row 0, never updated), [prevIndex], [cc] the
-    command under construction.  Emits the queued commands in order. *)
+(** WriteRecords, rows 1.. : [y0] = prevYear, [prevIndex] (both of the row that started the command
+    under construction [cc]).  Emits the queued commands in order.  (Before /repo commit 49eddda
+    prevYear stayed at the first row's year — finding prevyear-misfire, now `fixed:`.) *)
 Fixpoint wr_loop (tfs recLen y0 prevIndex : Z) (cc : cmd) (rows : list row) : list cmd :=
   match rows with
   | [] => [cc]
@@ -54,7 +55,7 @@ Fixpoint wr_loop (tfs recLen y0 prevIndex : Z) (cc : cmd) (rows : list row) : li
       let idx := TimeToIndex tfs (fst r) in
       if (idx =? prevIndex) && (year_of (fst r) =? y0)
       then wr_loop tfs recLen y0 prevIndex (set_data cc (snd r)) rest      (* cc.Data = outBuf *)
-      else cc :: wr_loop tfs recLen y0 idx (cmd_of tfs recLen r) rest
+      else cc :: wr_loop tfs recLen (year_of (fst r)) idx (cmd_of tfs recLen r) rest
   end.
 
 Definition write_records (tfs recLen : Z) (rows : list row) : list cmd :=
@@ -191,24 +192,6 @@ Definition query_all (tfs recLen : Z) (st : store) : Res (list row) := query tfs
 
 (** * guards (executable) *)
 
-(** F3: the `year == prevYear` test of WriteRecords misfires when a row of the first row's year and
-    of the previous command's index follows a command of a different year. [ccy] = year of [cc]. *)
-Fixpoint no_misfire (tfs y0 prevIndex ccy : Z) (rows : list row) : bool :=
-  match rows with
-  | [] => true
-  | r :: rest =>
-      let idx := TimeToIndex tfs (fst r) in
-      if (idx =? prevIndex) && (year_of (fst r) =? y0)
-      then (ccy =? y0) && no_misfire tfs y0 prevIndex ccy rest
-      else no_misfire tfs y0 idx (year_of (fst r)) rest
-  end.
-
-Definition request_ok (tfs : Z) (rows : list row) : bool :=
-  match rows with
-  | [] => true
-  | r :: rest => no_misfire tfs (year_of (fst r)) (TimeToIndex tfs (fst r)) (year_of (fst r)) rest
-  end.
-
 (** F2: a daily bar dated January 1 gets index 0 *)
 Definition no_index0 (tfs : Z) (rows : list row) : bool :=
   forallb (fun r => negb (TimeToIndex tfs (fst r) =? 0)) rows.
@@ -218,10 +201,10 @@ Definition rows_valid (rows : list row) : bool := forallb (fun r => valid_time (
 Definition valid_reclen (recLen : Z) : bool := (16 <=? recLen) && (recLen <? 1048576).
 
 (** * timeframe rewriting of ExecuteQuery (frontend/query.go:313-319, utils/timeframe.go:188)
-    utils.Timeframes in source order, as seconds.  QueryableTimeframe walks it from the END and
-    returns the first entry dividing the requested duration; "4H" is listed before "2H", so a
-    4H request is answered from the 2H bucket. *)
-Definition timeframes_s : list Z := [1; 10; 30; 60; 300; 900; 1800; 3600; 14400; 7200; 86400].
+    utils.Timeframes in source order, as seconds (as of /repo commit d275195, which moved "4H"
+    behind "2H"; before it a 4H request was answered from the 2H bucket).  QueryableTimeframe walks
+    the table from the END and returns the first entry dividing the requested duration. *)
+Definition timeframes_s : list Z := [1; 10; 30; 60; 300; 900; 1800; 3600; 7200; 14400; 86400].
 Definition queryable_tfs (d : Z) : Z :=
   match find (fun x => d mod x =? 0) (rev timeframes_s) with Some x => x | None => 86400 end.
 
@@ -229,8 +212,9 @@ Definition queryable_tfs (d : Z) : Z :=
 Definition query_bucket_all (tfs recLen : Z) (st : store) : Res (list row) :=
   if queryable_tfs tfs =? tfs then query_all tfs recLen st else Rejected.
 
-(** the guard of the C08 theorem: exactly the three defect classes are excluded
-    (timeframe-requeried-as-other, prevyear-misfire, daily-jan1-index0) *)
+(** the guard of the C08 theorem: the defect class daily-jan1-index0 is excluded;
+    [queryable_tfs tfs =? tfs] holds for every entry of utils.Timeframes since d275195
+    (Properties/C08.v C08_timeframes_queryable) *)
 Definition guard_C08 (tfs recLen : Z) (reqs : list (list row)) : bool :=
   valid_tf tfs && valid_reclen recLen && (queryable_tfs tfs =? tfs)
-  && forallb (fun rows => rows_valid rows && request_ok tfs rows && no_index0 tfs rows) reqs.
+  && forallb (fun rows => rows_valid rows && no_index0 tfs rows) reqs.
